@@ -107,12 +107,17 @@ mut("children_no_dup_check", ["C02", "C01"], NM,
                 raise TreeError(msg)
 """, """            seen.add(childid)
 """, "duplicate children no longer refused")
-mut("deleter_live_list", ["C02", "C16"], LM,
+mut("deleter_bypasses_hooks", ["C16", "C18"], LM,
     """        for child in self.children:
             child.parent = None
-""", """        for child in self.__children_or_empty:
-            child.parent = None
-""", "deleter iterates the live list while detaching")
+        if ASSERTIONS:  # pragma: no branch
+            assert len(self.children) == 0
+""", """        for child in self.children:
+            child._LightNodeMixin__parent = None
+        self.__children = []
+        if ASSERTIONS:  # pragma: no branch
+            assert len(self.children) == 0
+""", "LightNodeMixin deleter unlinks the children directly: no per-child detach hooks")
 mut("detach_hooks_swapped", ["C16"], LM,
     """            self._pre_detach(parent)
             parentchildren = parent.__children_or_empty""",
